@@ -184,6 +184,7 @@ async fn run(input: RunInput, mode: Mode) -> RunOutput {
     // in that time - close, replacement, loss, restart - must be reported as promptly as ever
     let cpu_bound = w.flag("cpu_bound_handlers", 0.3);
     let mut r_cpu = w.rng("wl:cpu-bound");
+    let mut r_hangup = w.rng("wl:hangup");
     // explicit disconnects on a clean network: (time, who disconnected, whom)
     let mut clean_disconnects: Vec<(u64, usize, usize)> = Vec::new();
     for _ in 0..n_ops {
@@ -242,10 +243,19 @@ async fn run(input: RunInput, mode: Mode) -> RunOutput {
             } else {
                 slots[i].node.net.connect_with_peer_id(addrs[j], ids[j]).await
             };
-            desc = format!("dial n{i}>n{j}{}:{}", if already { "(re)" } else { "" }, if res.is_ok() { "ok" } else { "err" });
+            // the application may hang up the very moment the dial returns - before any task the
+            // dial made runnable (the new connection's request handler among them) has been polled
+            let hangup = res.is_ok() && r_hangup.gen_bool(0.12);
+            if hangup {
+                let _ = slots[i].node.net.disconnect(ids[j]);
+                w.probe("hang-up-right-after-dial");
+                interesting = true;
+            }
+            desc = format!("dial n{i}>n{j}{}:{}{}", if already { "(re)" } else { "" }, if res.is_ok() { "ok" } else { "err" }, if hangup { "+hangup" } else { "" });
             if let Ok(p) = &res {
                 w.check(*p == ids[j], "dial-returned-wrong-id", "dial", || "wrong id".into());
             }
+            let res = if hangup { Err(anyhow::anyhow!("hung up")) } else { res };
             // (without keep-alive a registered connection may already be dead on the remote side -
             // idle timeouts fire at different instants on the two ends - and the tie-break may
             // legitimately keep it over the fresh one, so this is only judged with keep-alive)
